@@ -85,5 +85,32 @@ PROPS['C13'] = dict(
          _cub('vals_2x3', 2, (2, 3), mode='vals', tiers=['thorough'], weight=20), _cub('vals_torus3x3', 2, (3, 3), per=(1, 1, 0), mode='vals', vmax=1, tiers=['thorough'], weight=20), _cub('order_2x2_v2', 2, (2, 2), mode='order', vmax=2, tiers=['thorough'], weight=20),
          _cub('all_2x2_float', 2, (2, 2), mode='all', vmax=1, t='float', tiers=['thorough'], weight=20), _cub('vals_2x2x2', 3, (2, 2, 2), mode='vals', vmax=1, tiers=['thorough'], weight=25)])
 
+# ------------------------------------------------------------------------------------------------ C09
+_COLS = ['LIST', 'SET', 'HEAP', 'VECTOR', 'NAIVE_VECTOR', 'SMALL_VECTOR', 'UNORDERED_SET', 'INTRUSIVE_LIST', 'INTRUSIVE_SET']
+def _c09(col, z2, rows=0, rmrows=0, mapc=0, swaps=0, compr=0, k=2, r=3, c0=2, tiers=('quick', 'thorough'), weight=3):
+    name = 'base_%s_%s_r%d%d_m%d_s%d_c%d_k%d' % (col.lower(), 'z2' if z2 else 'z5', rows, rmrows, mapc, swaps, compr, k)
+    cf = ['-U__SSE2__'] if col == 'UNORDERED_SET' else []
+    extra = ['VP_COL_VECTOR'] if col == 'VECTOR' else []
+    return U(name, 'C09_base.cpp', ['VP_COL=' + col, 'VP_Z2=%d' % z2, 'VP_ROWS=%d' % rows, 'VP_RMROWS=%d' % rmrows, 'VP_MAPC=%d' % mapc, 'VP_SWAPS=%d' % swaps, 'VP_COMPR=%d' % compr, 'VP_K=%d' % k, 'VP_R=%d' % r, 'VP_C0=%d' % c0] + extra, tiers=tiers, weight=weight, cflags=cf,
+             must_reach=['end', 'add_to', 'multiply_target_and_add_to', 'multiply_source_and_add_to', 'insert_column'])
+_u09 = []
+for col in _COLS:
+    _u09.append(_c09(col, 1)); _u09.append(_c09(col, 0, k=1, r=2, weight=5))
+for col in _COLS:
+    if col == 'HEAP': continue
+    _u09.append(_c09(col, 1, rows=1, swaps=1, k=1 if col != 'INTRUSIVE_SET' else 2)); _u09.append(_c09(col, 0, rows=2, rmrows=1, mapc=1, k=1, r=2))
+for col in ('INTRUSIVE_SET', 'VECTOR', 'LIST'):
+    _u09.append(_c09(col, 1, compr=1, k=2)); _u09.append(_c09(col, 0, compr=1, rows=1, k=1, r=2))
+_kf = _c09('INTRUSIVE_SET', 1, compr=1, k=1); _kf['name'] += '_kf'; _kf['defs'].append('VP_KF_EMPTY'); _kf['kf'] = 'C09-compression-empty-target'; _kf['must_reach'] = []; _u09.append(_kf)
+_kf3 = _c09('INTRUSIVE_SET', 1, rows=1, swaps=1, k=2); _kf3['name'] += '_kf'; _kf3['defs'].append('VP_KF_COLSWAP'); _kf3['kf'] = 'C09-swap-columns-row-access'; _kf3['must_reach'] = []; _u09.append(_kf3)
+_kf2 = _c09('VECTOR', 1, rows=1, k=1); _kf2['name'] += '_kf'; _kf2['defs'].append('VP_KF_LAZYROW'); _kf2['kf'] = 'C09-vector-lazy-erase-row'; _kf2['must_reach'] = []; _u09.append(_kf2)
+for col in _COLS:
+    _u09.append(_c09(col, 0, k=2, r=2, swaps=1, tiers=['thorough'], weight=20)); _u09.append(_c09(col, 1, k=3, c0=2, mapc=1, swaps=1, rows=0 if col == 'HEAP' else 1, tiers=['thorough'], weight=20))
+PROPS['C09'] = dict(
+  explanation='Bounded symbolic execution of the real Matrix<Options> with base-matrix options (clang IR of the headers in /repo) for a table of option sets (9 column containers x Z2/Z5 x row access x map/vector container x swaps x compression): initial content and every operation (kind, indices, coefficient, inserted column) are solver variables (structure forked to concrete values by the solver, coefficients symbolic); after every step the full content, zero tests and rows are compared with a dense int matrix oracle.',
+  bounds=dict(quick='Z2: 3 rows, 2 initial columns + insertions, k=2 operations (k=1 for most row-access configurations); Z5: 2 rows, 2 initial columns, k=1; all 9 column types', thorough='Z2 k=3 with swaps, removals and row access; Z5 k=2'),
+  outside=['matrices larger than the bounds', 'add/multiply of a column onto itself (not a documented use)', 'characteristics other than 2 and 5'],
+  units=_u09)
+
 NOT_APPLICABLE = {}
 NOTES = 'Clauses outside every claim: real thread schedules/TBB execution (engine is sequential), iostream text I/O, GMP arbitrary precision, Eigen-based Coxeter point location under general affine maps, SIMD paths of boost::unordered_flat_map (compiled with -U__SSE2__), allocation failure, inputs beyond the stated bounds.'
